@@ -17,8 +17,12 @@
 //!
 
 use std::net::SocketAddr;
+#[cfg(not(roughenough_verif))]
 use std::thread;
+#[cfg(not(roughenough_verif))]
 use std::time::SystemTime;
+#[cfg(roughenough_verif)]
+use verif_std::{thread, time::SystemTime};
 
 use byteorder::{LittleEndian, WriteBytesExt};
 use data_encoding::{Encoding, HEXLOWER_PERMISSIVE};
